@@ -26,6 +26,8 @@ CONFIGS = {
     ("C14", "thorough"): [cfg("search-f5", 5, ("findall", "find", "byattr"))],
     ("C15", "quick"): [cfg("walk-f6", 6, ("walk",))],
     ("C15", "thorough"): [cfg("walk-f8", 8, ("walk",))],
+    ("C17", "quick"): [cfg("all-f4", 4, ("nav", "common", "iters", "walk", "find"), MaxTuple=2, MaxStop=1, MaxHide=1, sample_others=0)],
+    ("C17", "thorough"): [cfg("all-f5", 5, ("nav", "common", "iters", "walk", "find"), MaxTuple=2, MaxStop=2, MaxHide=2, sample_others=0)],
     ("C18", "quick"): [cfg("all-f4", 4, ("nav", "common", "iters", "walk", "find"), MaxTuple=2, MaxStop=1, MaxHide=1, sample_others=0)],
     ("C18", "thorough"): [cfg("all-f5", 5, ("nav", "common", "iters", "walk", "find"), MaxTuple=2, MaxStop=2, MaxHide=2, sample_others=0)],
 }
@@ -76,7 +78,10 @@ def run(prop, tier, repo=None, families=("mixin", "light"), others=("node", "any
     for c in CONFIGS[(prop, tier)]:
         stats = run_model(c)
         lines = T.read_lines(stats["lines_path"])
-        tot = _replay(lines, list(families), tuple(families[:2]) if len(families) >= 2 else None, repo)
+        pairs = [tuple(families[:2])] if len(families) >= 2 else None
+        if prop == "C17":
+            pairs = [(f.rsplit(":", 1)[1], f) for f in families if f.startswith("adv:")]
+        tot = _replay(lines, list(families), pairs, repo)
         tot.update(config=c, tlc=stats, families=list(families), vectors=len(lines))
         outcomes.append(tot)
         k = c["sample_others"]
